@@ -39,7 +39,7 @@ pub fn sizes(ctx: &Ctx, layer: &str) -> Sizes {
         "miri" => Sizes { g1: if ctx.thorough { 4000 } else { 160 }, g2_cap: 2, g3: vec![127, 128], g3p: vec![127, 128, 129] },
         "vg" => Sizes { g1: 1500, g2_cap: 8, g3: vec![127, 128, 16_383, 16_384], g3p: vec![127, 128, 129, 16_384] },
         "asan" => Sizes { g1: if ctx.thorough { 400_000 } else { 20_000 }, g2_cap: 64, g3, g3p },
-        _ => Sizes { g1: if ctx.thorough { 3_000_000 } else { 300_000 }, g2_cap: if ctx.thorough { u32::MAX } else { 4096 }, g3, g3p },
+        _ => Sizes { g1: if ctx.thorough { 15_000_000 } else { 300_000 }, g2_cap: if ctx.thorough { u32::MAX } else { 4096 }, g3, g3p },
     }
 }
 
@@ -740,7 +740,7 @@ pub fn c09_case(c: &mut Ctx, r: &mut Rng, fam: Fam, rp: &RP, case: &Case) {
 pub fn c09(ctx: &mut Ctx, layer: &str) {
     let mut sz = sizes(ctx, layer);
     if !matches!(layer, "miri" | "vg") {
-        sz.g1 = if ctx.thorough { 1_500_000 } else { 200_000 };
+        sz.g1 = if ctx.thorough { 8_000_000 } else { 200_000 };
     }
     for_valid(ctx, &sz, c09_case);
 }
